@@ -307,6 +307,17 @@ def check(pid, tier, seed, jobs, budget_s=None, out=sys.stdout):
         rr = _case_worker((pid, small, True))
         path = write_replay(pid, s, small, case, rr.get('digest'), str(v.get('detail', ''))[:4000], steps)
         replay_paths.append((s, path, len(by_sig[s])))
+    # example replay files of listed findings are (re)created when missing, from this run's first matching case
+    for s in sorted(by_sig):
+        kf = match_known(known, pid, s)
+        if kf is not None and kf.get('example_replay'):
+            ex = os.path.join(HERE, kf['example_replay'])
+            if not os.path.exists(ex):
+                cid, v = by_sig[s][0]
+                small, steps = minimise(pid, case_by_id[cid], s, camp, budget_s=15.0)
+                rr = _case_worker((pid, small, True))
+                pth = write_replay(pid, s, small, case_by_id[cid], rr.get('digest'), str(v.get('detail', ''))[:4000], steps)
+                os.replace(pth, ex)
     wall = _real_time() - t0
     # ---- evidence
     samples = []
